@@ -109,6 +109,7 @@ type VC struct {
 	frameAxQ        map[string]bool
 	freshBase       string // while a callee's postconditions are evaluated: the allocation counter at the call
 	locksOn         bool              // contract option locks / guards
+	callCovers      map[string]bool // call sites that already have a reachability guard
 	inDispatch      int // inside the case split of a call through an interface
 	rootContract    *Contract
 	lockObls        bool              // relock/unlock/balance obligations are generated in this run
